@@ -1025,3 +1025,55 @@ Proof.
   pose proof (spec_bearing_is_hed_column v Hs) as Hi. unfold is_hed_column in Hi. unfold hed_bearing.
   rewrite Hc in *. destruct c; [discriminate | reflexivity | reflexivity].
 Qed.
+
+(* ------------------------------------------------------------------ *)
+(* the strings that definitions are gathered from (Sidecar.extract_definitions) *)
+Lemma ignore_no_strings v : detect_column_type true v = Some CIgnore -> column_strings v = [].
+Proof.
+  destruct v; try reflexivity. unfold detect_column_type, column_strings.
+  destruct (negb (truthy (JObj kvs))) eqn:Et.
+  - destruct kvs; [reflexivity | discriminate].
+  - destruct (lookup s_HED kvs) as [h|]; [|reflexivity]. destruct h; try discriminate.
+    + destruct (true && negb (has_hash s)); discriminate.
+    + destruct (true && negb (forallb is_str (map snd kvs0))); discriminate.
+Qed.
+
+(* the strings of the HED-bearing entries, in document order *)
+Definition bearing_strings (sc : list (str * json)) : list str :=
+  flat_map (fun c : str * json => if hed_bearing (snd c) then column_strings (snd c) else []) sc.
+
+Lemma basic_strings_all fixed sc :
+  (forall col, In col sc -> good fixed (snd col)) ->
+  exists bhs, basic_strings fixed sc = Ok bhs /\ concat (map (map snd) bhs) = bearing_strings sc.
+Proof.
+  intros Hg. unfold basic_strings.
+  destruct (mapM_total (fun col : str * json =>
+              get_hed_strings fixed (detect_column_type true (snd col)) (snd col)) sc) as [bhs Hb].
+  { intros col Hcol. apply get_basic_total. apply Hg. exact Hcol. }
+  exists bhs. split; [exact Hb|]. unfold bearing_strings. rewrite flat_map_concat_map. f_equal.
+  apply (mapM_pointwise _ _ _ _ _ Hb). intros [name v] y Hin Hy. cbn [snd] in *.
+  unfold hed_bearing. destruct (detect_column_type true v) as [c|] eqn:Ed.
+  - destruct (typed_strings fixed v c (Hg _ Hin) Ed) as [hs [Hhs Hm]]. rewrite Hhs in Hy. inversion Hy; subst y.
+    destruct c; try exact Hm. rewrite Hm. apply ignore_no_strings. exact Ed.
+  - cbn [get_hed_strings] in Hy. inversion Hy. reflexivity.
+Qed.
+
+Lemma now_definitions_from_every_string sc :
+  exists bhs, basic_strings true sc = Ok bhs /\ concat (map (map snd) bhs) = bearing_strings sc.
+Proof. apply basic_strings_all. intros col _. left. reflexivity. Qed.
+
+Lemma flat_map_ext_in' {A B} (f g : A -> list B) l :
+  (forall x, In x l -> f x = g x) -> flat_map f l = flat_map g l.
+Proof.
+  induction l as [|a l IH]; intros H; simpl; [reflexivity|].
+  rewrite (H a (or_introl eq_refl)), IH; [reflexivity|]. intros x Hx. apply H. right. exact Hx.
+Qed.
+
+Lemma bearing_strings_struct_ok sc : struct_ok sc = true -> bearing_strings sc = doc_strings sc.
+Proof.
+  intros H. unfold bearing_strings, doc_strings. apply flat_map_ext_in'. intros [name v] Hin. cbn [snd].
+  destruct (hed_bearing v) eqn:Eb; [reflexivity|].
+  pose proof (struct_ok_cols (chk := true) sc H _ Hin) as Hc.
+  destruct (col_ok_detect sc name v Hc) as [c [Hd _]]. unfold hed_bearing in Eb. rewrite Hd in Eb.
+  destruct c; try discriminate. symmetry. apply ignore_no_strings. exact Hd.
+Qed.
